@@ -380,10 +380,12 @@ impl<F: Field> Polynomial<F, LagrangeCoeff> {
     /// Rotates the values in a `LagrangeCoeff` polynomial by `Rotation`
     pub fn rotate(&self, rotation: Rotation) -> Polynomial<F, LagrangeCoeff> {
         let mut values = self.values.clone();
+        // The domain is cyclic: rotations wrap around its size.
+        let len = values.len().max(1);
         if rotation.0 < 0 {
-            values.rotate_right((-rotation.0) as usize);
+            values.rotate_right(rotation.0.unsigned_abs() as usize % len);
         } else {
-            values.rotate_left(rotation.0 as usize);
+            values.rotate_left(rotation.0 as usize % len);
         }
         Polynomial {
             values,
